@@ -57,29 +57,29 @@ WorldR(ks) == ZoneSigs(ks)
 Has(acts, a) == \E i \in 1..Len(acts) : acts[i] = a
 
 \* publish a new version of RRset X (the old one stays in caches)
-Supersede(c, old, new) == IF old = new THEN c ELSE c \cup {[v |-> old, life |-> Inf]}
+Supersede(c, old, new) == IF old = new THEN c ELSE c \cup {[life |-> Inf, v |-> old]}
 
 Publish(acts, ks, p, c) ==
   LET d == IF Has(acts, "UpdateDnskeyRrset") THEN WorldD(ks) ELSE p.D
       s == IF Has(acts, "UpdateDsRrset")     THEN WorldS(ks) ELSE p.S
       r == IF Has(acts, "UpdateRrsig")       THEN WorldR(ks) ELSE p.R
-  IN [pub |-> [D |-> d, S |-> s, R |-> r],
-      cache |-> [D |-> Supersede(c.D, p.D, d), S |-> Supersede(c.S, p.S, s),
-                 R |-> Supersede(c.R, p.R, r)]]
+  IN [cache |-> [D |-> Supersede(c.D, p.D, d), R |-> Supersede(c.R, p.R, r),
+                 S |-> Supersede(c.S, p.S, s)],
+      pub |-> [D |-> d, R |-> r, S |-> s]]
 
 \* the current version of X has reached every secondary: superseded
 \* versions are no longer served, caches keep them for at most TTL[X]
-Settle(cs, t) == {[v |-> e.v, life |-> IF e.life = Inf THEN t ELSE e.life] : e \in cs}
+Settle(cs, t) == {[life |-> IF e.life = Inf THEN t ELSE e.life, v |-> e.v] : e \in cs}
 \* keep one entry per version (the longest lived)
 Norm(cs) == {e \in cs : \A f \in cs : f.v = e.v => f.life <= e.life}
 
 Propagated(acts, c) ==
   [D |-> IF Has(acts, "ReportDnskeyPropagated") \/ Has(acts, "WaitDnskeyPropagated")
          THEN Norm(Settle(c.D, ttls.D)) ELSE c.D,
-   S |-> IF Has(acts, "ReportDsPropagated") \/ Has(acts, "WaitDsPropagated")
-         THEN Norm(Settle(c.S, ttls.S)) ELSE c.S,
    R |-> IF Has(acts, "ReportRrsigPropagated") \/ Has(acts, "WaitRrsigPropagated")
-         THEN Norm(Settle(c.R, ttls.R)) ELSE c.R]
+         THEN Norm(Settle(c.R, ttls.R)) ELSE c.R,
+   S |-> IF Has(acts, "ReportDsPropagated") \/ Has(acts, "WaitDsPropagated")
+         THEN Norm(Settle(c.S, ttls.S)) ELSE c.S]
 
 Max(a, b) == IF a >= b THEN a ELSE b
 ReportTtl(acts) ==
@@ -87,7 +87,7 @@ ReportTtl(acts) ==
       Max(IF Has(acts, "ReportDsPropagated") THEN ttls.S ELSE 0,
           IF Has(acts, "ReportRrsigPropagated") THEN ttls.R ELSE 0))
 
-AgeCache(cs) == {[v |-> e.v, life |-> IF e.life = Inf THEN Inf ELSE e.life - 1] :
+AgeCache(cs) == {[life |-> IF e.life = Inf THEN Inf ELSE e.life - 1, v |-> e.v] :
                    e \in {f \in cs : f.life = Inf \/ f.life > 1}}
 
 --------------------------------------------------------------------------
@@ -98,18 +98,18 @@ Call(o, settle) ==
   \E r \in Outcomes(Dev, keys, rolls, o) :
     /\ keys' = r.keys
     /\ rolls' = r.rolls
-    /\ last' = [op |-> [op |-> o.op, rt |-> IF "rt" \in DOMAIN o THEN o.rt ELSE ""],
-                res |-> r.res, acts |-> <<>>]
+    /\ last' = [acts |-> <<>>, op |-> [op |-> o.op, rt |-> IF "rt" \in DOMAIN o THEN o.rt ELSE ""],
+                res |-> r.res]
     /\ LET c0 == IF r.res = "ok" THEN Propagated(settle, cache) ELSE cache
            w  == IF r.res = "ok" THEN Publish(r.acts, r.keys, pub, c0)
-                 ELSE [pub |-> pub, cache |-> c0]
+                 ELSE [cache |-> c0, pub |-> pub]
        IN pub' = w.pub /\ cache' = w.cache
     /\ UNCHANGED ttls
 
 TagIx(k) == CHOOSE i \in 1..N : KeySeq[i] = k
 H_AddKey(k) == k \notin DOMAIN keys /\
-               Call([op |-> "add", k |-> k, avail |-> TRUE, tag |-> TagIx(k)], <<>>)
-H_DeleteKey(k) == k \in DOMAIN keys /\ Call([op |-> "delete_key", k |-> k], <<>>)
+               Call([avail |-> TRUE, k |-> k, op |-> "add", tag |-> TagIx(k)], <<>>)
+H_DeleteKey(k) == k \in DOMAIN keys /\ Call([k |-> k, op |-> "delete_key"], <<>>)
 \* Every roll type except AlgorithmRoll replaces keys of a zone that is
 \* already signed: on an unsigned zone KskRoll / CskRoll are accepted by the
 \* key set but publish the DS before (or together with) the first
@@ -117,7 +117,7 @@ H_DeleteKey(k) == k \in DOMAIN keys /\ Call([op |-> "delete_key", k |-> k], <<>>
 H_Start(rt) == rolls[rt].st = "Idle" /\
                (Discipline => rt = "AlgorithmRoll" \/ pub.S # {}) /\
                \E old \in StartLists, new \in NewLists :
-                  Call([op |-> "start_roll", rt |-> rt, old |-> old, new |-> new], <<>>)
+                  Call([new |-> new, old |-> old, op |-> "start_roll", rt |-> rt], <<>>)
 H_P1(rt) == rolls[rt].st = "P1" /\
             LET acts == ActionsOf(rt, "P1")
             IN Call([op |-> "propagation1_complete", rt |-> rt, ttl |-> ReportTtl(acts)], acts)
@@ -134,22 +134,21 @@ Advance(rt) == /\ H_P1(rt) \/ H_CE1(rt) \/ H_P2(rt) \/ H_CE2(rt) \/ H_Done(rt)
                /\ rolls'[rt] # rolls[rt]
 
 H_Tick == /\ keys' = TickKeys(keys)
-          /\ cache' = [D |-> AgeCache(cache.D), S |-> AgeCache(cache.S), R |-> AgeCache(cache.R)]
-          /\ last' = [op |-> [op |-> "tick"], res |-> "ok", acts |-> <<>>]
+          /\ cache' = [D |-> AgeCache(cache.D), R |-> AgeCache(cache.R), S |-> AgeCache(cache.S)]
+          /\ last' = [acts |-> <<>>, op |-> [op |-> "tick"], res |-> "ok"]
           /\ UNCHANGED <<rolls, pub, ttls>>
 
 --------------------------------------------------------------------------
 (* Initial states *)
 
 Active1(k, dated) ==       \* an active key (imported keys have no timestamps)
-  LET s == [St0 EXCEPT !.avail = TRUE, !.signer = TRUE, !.present = TRUE]
+  LET s == [St0 EXCEPT !.avail = TRUE, !.present = TRUE, !.signer = TRUE]
       t == KType(k)
       age == IF dated THEN MaxTTL ELSE None
   IN [a |-> IF t \in {"ksk", "csk"} THEN [s EXCEPT !.at_parent = TRUE] ELSE s,
       b |-> IF t = "csk" THEN s ELSE St0,
-      vis |-> age, dsv |-> IF t = "zsk" THEN None ELSE age,
-      rsv |-> IF t = "ksk" THEN None ELSE age,
-      pubd |-> TRUE, wd |-> FALSE, tag |-> TagIx(k), dec |-> FALSE]
+      dec |-> FALSE, dsv |-> IF t = "zsk" THEN None ELSE age, pubd |-> TRUE,
+      rsv |-> IF t = "ksk" THEN None ELSE age, tag |-> TagIx(k), vis |-> age, wd |-> FALSE]
 
 InitKeys(kind) ==
   CASE kind = "empty" -> << >>
@@ -160,9 +159,9 @@ InitKeys(kind) ==
 EInit == \E kind \in InitKinds, t \in TtlChoices :
            /\ keys = InitKeys(kind)
            /\ rolls = [rt \in RollTypes |-> Idle]
-           /\ last = [op |-> [op |-> "new"], res |-> "ok", acts |-> <<>>]
-           /\ pub = [D |-> WorldD(keys), S |-> WorldS(keys), R |-> WorldR(keys)]
-           /\ cache = [D |-> {}, S |-> {}, R |-> {}]
+           /\ last = [acts |-> <<>>, op |-> [op |-> "new"], res |-> "ok"]
+           /\ pub = [D |-> WorldD(keys), R |-> WorldR(keys), S |-> WorldS(keys)]
+           /\ cache = [D |-> {}, R |-> {}, S |-> {}]
            /\ ttls = t
 
 ENext == \/ \E k \in EKeys : H_AddKey(k) \/ H_DeleteKey(k)
